@@ -259,7 +259,7 @@ def main():
         'not_applicable': [{'property_id': p, 'reason': PENDING.get(p, 'check not built yet in this round (see DESIGN.md '
                                                                   'section 10 for the build order); not claimed')}
                            for p in ALL if p not in CHECKS],
-        'notes': 'Genuine defects found so far are listed in KNOWN_FINDINGS.json (fixed ones with their /repo commit).',
+        'notes': 'Eight genuine defects were found and repaired by fix: commits in /repo; they are listed in KNOWN_FINDINGS.json (fixed, with the commit); no known finding is open. seeded/ holds 92 changes by independent sub-agents with the check that catches each (DESIGN.md section 8).',
     }
     with open(os.path.join(HERE, 'MANIFEST.json'), 'w', encoding='utf8') as handle:
         json.dump(manifest, handle, indent=1)
